@@ -279,7 +279,7 @@ HARNESSES = [
       funcs=['common::case_mapping_rule', 'common::has_lowercase_mapping', 'char::to_lowercase (iterator)'],
       bound='strings of 0..=4 characters over SIGMA_CASE'),
     H('C10', 'c10_nick_one', '$P::c10::nick_one', unwind=4, unwindset=(('16binary_search_by', 13), ('8try_fold', 5), ('18try_from_fn_erased', 5), ('10next_match', 2), ('17case_mapping_rule', 2)),
-      stubs=('str',), timeout=900, mem_gb=24,
+      stubs=('str',), tiers=T, timeout=1800, mem_gb=24,
       funcs=['common::case_mapping_rule (via Nickname::case_mapping_rule)', 'char::to_lowercase'],
       bound='one character, every Unicode scalar value'),
     # ---------------------------------------------------------------- C11
@@ -288,7 +288,10 @@ HARNESSES = [
       funcs=['usernames::width_mapping_rule', 'usernames::get_decomposition_mapping', 'usernames::has_width_mapping',
              'WIDE_NARROW_MAPPING (generated, 16.0.0)'] + F_SEARCH,
       bound='exactly one character, every Unicode scalar value'),
-    H('C11', 'c11_width_map_n3', '$P::c11::width_map::<3, 12, _>', unwind=5, stubs=('str', 'width'), timeout=900,
+    H('C11', 'c11_width_map_n2', '$P::c11::width_map::<2, 8, _>', unwind=4, stubs=('str', 'width'), timeout=900,
+      funcs=['usernames::width_mapping_rule (both username profiles)', 'usernames::has_width_mapping'],
+      bound='strings of 0..=2 characters, every character any Unicode scalar value; table lookup stubbed by the oracle (S-WIDTH)'),
+    H('C11', 'c11_width_map_n3', '$P::c11::width_map::<3, 12, _>', unwind=5, stubs=('str', 'width'), tiers=T, timeout=900,
       funcs=['usernames::width_mapping_rule (both username profiles)', 'usernames::has_width_mapping'],
       bound='strings of 0..=3 characters, every character any Unicode scalar value; table lookup stubbed by the oracle (S-WIDTH)'),
     H('C11', 'c11_width_map_n4', '$P::c11::width_map::<4, 16, _>', unwind=6, stubs=('str', 'width'), tiers=T, timeout=3000, mem_gb=20,
@@ -481,12 +484,12 @@ HARNESSES = [
     H('C03', 'c03_rule_zwnj_n2', '$P::c03::rule_zwnj_b::<2, 8, _>', unwind=4, unwindset=(('25rule_zero_width_nonjoiner', 3), (r'10advance_by\w*\.0$', 2), ('10advance_by', 4)), stubs=('ctx',), expect_unsat_cover=('COVER: rejected because of the following character',), timeout=1200, mem_gb=18,
       funcs=['context::rule_zero_width_nonjoiner', 'context::before', 'context::after'],
       bound='labels of 0..=2 characters, every character any Unicode scalar value; offset ANY usize (the three-character cases with every neighbour are c03_nb_zwnj_*)'),
-    H('C03', 'c03_rule_zwnj_n4', '$P::c03::rule_zwnj_b::<4, 16, _>', unwind=6, unwindset=(('25rule_zero_width_nonjoiner', 5), (r'10advance_by\w*\.0$', 2), ('10advance_by', 6)), stubs=('ctx',), tiers=T, timeout=1500, mem_gb=30,
+    H('C03', 'c03_rule_zwnj_n4', '$P::c03::rule_zwnj_b::<4, 16, _>', unwind=6, unwindset=(('25rule_zero_width_nonjoiner', 5), (r'10advance_by\w*\.0$', 2), ('10advance_by', 6)), stubs=('ctx',), tiers=T, timeout=3000, mem_gb=30,
       funcs=['context::rule_zero_width_nonjoiner', 'context::before', 'context::after'],
       bound='labels of 0..=4 characters, every character any Unicode scalar value; offset ANY usize'),
-    H('C03', 'c03_rule_zwnj_n6', '$P::c03::rule_zwnj_b::<6, 24, _>', unwind=8, unwindset=(('25rule_zero_width_nonjoiner', 7), (r'10advance_by\w*\.0$', 2), ('10advance_by', 8)), stubs=('ctx',), tiers=T, timeout=3400, mem_gb=24,
+    H('C03', 'c03_rule_zwnj_n5', '$P::c03::rule_zwnj_b::<5, 20, _>', unwind=7, unwindset=(('25rule_zero_width_nonjoiner', 6), (r'10advance_by\w*\.0$', 2), ('10advance_by', 7)), stubs=('ctx',), tiers=T, timeout=3400, mem_gb=44,
       funcs=['context::rule_zero_width_nonjoiner', 'context::before', 'context::after'],
-      bound='labels of 0..=6 characters (transparent runs on both sides), every character any Unicode scalar value; offset ANY usize'),
+      bound='labels of 0..=5 characters (transparent characters on both sides), every character any Unicode scalar value; offset ANY usize'),
     H('C03', 'c03_registry', '$P::c03::registry', unwind=4, stubs=('ctx',), timeout=900,
       funcs=['context::get_context_rule', 'all nine rule functions through the returned function pointer'],
       bound='every u32 (complete)'),
@@ -541,7 +544,7 @@ HARNESSES = [
     H('C09', 'c09_bidi_rule_n4', '$P::c09::bidi_rule::<4, 16, _>', crate='profiles', unwind=7, stubs=('bidiw',), timeout=1500, mem_gb=16,
       funcs=['usernames::directionality_rule (via both username profiles)', 'bidi::has_rtl', 'bidi::satisfy_bidi_rule', 'bidi::is_valid_rtl_label', 'bidi::is_valid_ltr_label', 'bidi::bidi_class'],
       bound='every sequence of 0..=4 characters over the 23 Bidi classes (one witness character per class)'),
-    H('C09', 'c09_bidi_rule_n5', '$P::c09::bidi_rule::<5, 20, _>', crate='profiles', unwind=8, stubs=('bidiw',), timeout=1500, mem_gb=12,
+    H('C09', 'c09_bidi_rule_n5', '$P::c09::bidi_rule::<5, 20, _>', crate='profiles', unwind=8, stubs=('bidiw',), tiers=T, timeout=1500, mem_gb=12,
       funcs=['usernames::directionality_rule (via both username profiles)', 'bidi::has_rtl', 'bidi::satisfy_bidi_rule', 'bidi::is_valid_rtl_label', 'bidi::is_valid_ltr_label', 'bidi::bidi_class'],
       bound='every sequence of 0..=5 characters over the 23 Bidi classes (one witness character per class)'),
     H('C09', 'c09_bidi_rule_n7', '$P::c09::bidi_rule::<7, 28, _>', crate='profiles', unwind=10, stubs=('bidiw',), tiers=T, timeout=3400, mem_gb=16,
@@ -585,10 +588,10 @@ HARNESSES = [
       funcs=['Profile::prepare/enforce of Nickname', 'Nickname::apply_prepare_rules/apply_enforce_rules', 'profile::stabilize', 'nicknames::trim_spaces/find_disallowed_space', 'StringClass::allows'], bound='strings of 0..=2 characters over SIGMA_PIPE'),
     H('C06', 'c06_nickname_enforce_n2', '$P::pipe::nickname::<2, 8, 6, true, _>', unwind=8, stubs=('str', 'pipe'), unwindset=pipe_us(2), tiers=T, timeout=3500, mem_gb=44,
       funcs=['Profile::prepare/enforce of Nickname', 'Nickname::apply_prepare_rules/apply_enforce_rules', 'profile::stabilize', 'nicknames::trim_spaces/find_disallowed_space', 'StringClass::allows'], bound='strings of 0..=2 characters over SIGMA_PIPE'),
-    H('C06', 'c06_nickname_two_rounds_n1', '$P::pipe::nickname_two_rounds::<1, 4, 4, false, _>', unwind=5, stubs=('str', 'pipe4', 'stab2'), unwindset=pipe_us(1), timeout=1500, mem_gb=24,
+    H('C06', 'c06_nickname_two_rounds_n1', '$P::pipe::nickname_two_rounds::<1, 4, 4, false, _>', unwind=5, stubs=('str', 'pipe4', 'stab2'), unwindset=pipe_us(1), tiers=T, timeout=1500, mem_gb=24,
       funcs=['Nickname::enforce', 'Nickname::apply_enforce_rules', 'Nickname::apply_prepare_rules', 'nicknames::trim_spaces/find_disallowed_space', 'FreeformClass::allows'],
       bound='strings of 0..=1 characters over SIGMA_PIPE; two applications of the rule function (S-STAB2)'),
-    H('C07', 'c07_const_opaque_k0', '$P::pipe::compare_const_freeform::<1, 4, 4, false, 0, false, _>', unwind=5, stubs=('str', 'pipe4'), unwindset=pipe_us(1), timeout=1500, mem_gb=13,
+    H('C07', 'c07_const_opaque_k0', '$P::pipe::compare_const_freeform::<1, 4, 4, false, 0, false, _>', unwind=5, stubs=('str', 'pipe4'), unwindset=pipe_us(1), tiers=T, timeout=1500, mem_gb=13,
       funcs=['OpaqueString::compare', 'OpaqueString::enforce'], bound='one operand any string of 0..=1 characters over SIGMA_PIPE, second operand "" (rejected: Invalid)'),
     H('C07', 'c07_const_opaque_k1', '$P::pipe::compare_const_freeform::<1, 4, 4, false, 1, true, _>', unwind=5, stubs=('str', 'pipe4'), unwindset=pipe_us(1), timeout=1500, mem_gb=13,
       funcs=['OpaqueString::compare', 'OpaqueString::enforce'], bound='one operand any string of 0..=1 characters over SIGMA_PIPE, first operand "a"'),
@@ -606,7 +609,7 @@ HARNESSES = [
       funcs=['UsernameCaseMapped::compare', 'enforce'], bound='one operand any string of 0..=1 characters over SIGMA_PIPE, first operand "a"'),
     H('C07', 'c07_const_mapped_k2', '$P::pipe_user::compare_const_username::<1, 4, 4, true, 2, true, _>', crate='profiles', unwind=5, stubs=('str', 'pipe4', 'pipe_bidi'), unwindset=pipe_us(1), timeout=1500, mem_gb=13,
       funcs=['UsernameCaseMapped::compare', 'enforce'], bound='one operand any string of 0..=1 characters over SIGMA_PIPE, first operand U+0020 (rejected: BadCodepoint)'),
-    H('C07', 'c07_const_preserved_k0', '$P::pipe_user::compare_const_username::<1, 4, 4, false, 0, false, _>', crate='profiles', unwind=5, stubs=('str', 'pipe4', 'pipe_bidi'), unwindset=pipe_us(1), timeout=1500, mem_gb=26,
+    H('C07', 'c07_const_preserved_k0', '$P::pipe_user::compare_const_username::<1, 4, 4, false, 0, false, _>', crate='profiles', unwind=5, stubs=('str', 'pipe4', 'pipe_bidi'), unwindset=pipe_us(1), tiers=T, timeout=1500, mem_gb=26,
       funcs=['UsernameCasePreserved::compare', 'enforce'], bound='one operand any string of 0..=1 characters over SIGMA_PIPE, second operand "" (rejected: Invalid)'),
     H('C07', 'c07_const_preserved_k1', '$P::pipe_user::compare_const_username::<1, 4, 4, false, 1, true, _>', crate='profiles', unwind=5, stubs=('str', 'pipe4', 'pipe_bidi'), unwindset=pipe_us(1), timeout=1500, mem_gb=26,
       funcs=['UsernameCasePreserved::compare', 'enforce'], bound='one operand any string of 0..=1 characters over SIGMA_PIPE, first operand "a"'),
@@ -653,7 +656,7 @@ HARNESSES = [
       funcs=['Profile::prepare/enforce of UsernameCaseMapped and UsernameCasePreserved', 'usernames::width_mapping_rule', 'usernames::directionality_rule', 'bidi::has_rtl/satisfy_bidi_rule', 'common::case_mapping_rule', 'IdentifierClass::allows + context dispatch'], bound='strings of 0..=1 characters over SIGMA_PIPE (43 witnesses), both username profiles'),
     H('C04', 'c04_username_preserved_prepare_n1', '$P::pipe_user::username::<1, 4, 4, false, false, _>', crate='profiles', unwind=5, stubs=('str', 'pipe4', 'pipe_bidi'), unwindset=pipe_us(1), timeout=1500, mem_gb=16,
       funcs=['Profile::prepare/enforce of UsernameCaseMapped and UsernameCasePreserved', 'usernames::width_mapping_rule', 'usernames::directionality_rule', 'bidi::has_rtl/satisfy_bidi_rule', 'common::case_mapping_rule', 'IdentifierClass::allows + context dispatch'], bound='strings of 0..=1 characters over SIGMA_PIPE (43 witnesses), both username profiles'),
-    H('C04', 'c04_username_mapped_enforce_n1', '$P::pipe_user::username::<1, 4, 4, true, true, _>', crate='profiles', unwind=5, stubs=('str', 'pipe4', 'pipe_bidi'), unwindset=pipe_us(1), timeout=1500, mem_gb=24,
+    H('C04', 'c04_username_mapped_enforce_n1', '$P::pipe_user::username::<1, 4, 4, true, true, _>', crate='profiles', unwind=5, stubs=('str', 'pipe4', 'pipe_bidi'), unwindset=pipe_us(1), tiers=T, timeout=1500, mem_gb=24,
       funcs=['Profile::prepare/enforce of UsernameCaseMapped and UsernameCasePreserved', 'usernames::width_mapping_rule', 'usernames::directionality_rule', 'bidi::has_rtl/satisfy_bidi_rule', 'common::case_mapping_rule', 'IdentifierClass::allows + context dispatch'], bound='strings of 0..=1 characters over SIGMA_PIPE (43 witnesses), both username profiles'),
     H('C04', 'c04_username_preserved_enforce_n1', '$P::pipe_user::username::<1, 4, 4, false, true, _>', crate='profiles', unwind=5, stubs=('str', 'pipe4', 'pipe_bidi'), unwindset=pipe_us(1), tiers=T, timeout=1500, mem_gb=24,
       funcs=['Profile::prepare/enforce of UsernameCaseMapped and UsernameCasePreserved', 'usernames::width_mapping_rule', 'usernames::directionality_rule', 'bidi::has_rtl/satisfy_bidi_rule', 'common::case_mapping_rule', 'IdentifierClass::allows + context dispatch'], bound='strings of 0..=1 characters over SIGMA_PIPE (43 witnesses), both username profiles'),
@@ -722,7 +725,7 @@ HARNESSES = [
       funcs=['Nickname: enforce on an instance that already served another call'], bound='strings of 0..=1 characters over SIGMA_PIPE'),
     H('C16', 'c16_form_mapped_f0', '$P::pipe_user::api_form_username::<1, 4, 4, true, 0, _>', crate='profiles', unwind=5, stubs=('str', 'pipe4', 'pipe_bidi', 'once'), unwindset=pipe_us(1), tiers=T, timeout=1500, mem_gb=17,
       funcs=['UsernameCaseMapped: static prepare'], bound='strings of 0..=1 characters over SIGMA_PIPE'),
-    H('C16', 'c16_form_mapped_f1', '$P::pipe_user::api_form_username::<1, 4, 4, true, 1, _>', crate='profiles', unwind=5, stubs=('str', 'pipe4', 'pipe_bidi', 'once'), unwindset=pipe_us(1), timeout=1500, mem_gb=17,
+    H('C16', 'c16_form_mapped_f1', '$P::pipe_user::api_form_username::<1, 4, 4, true, 1, _>', crate='profiles', unwind=5, stubs=('str', 'pipe4', 'pipe_bidi', 'once'), unwindset=pipe_us(1), tiers=T, timeout=1500, mem_gb=17,
       funcs=['UsernameCaseMapped: static enforce'], bound='strings of 0..=1 characters over SIGMA_PIPE'),
     H('C16', 'c16_form_mapped_f2', '$P::pipe_user::api_form_username::<1, 4, 4, true, 2, _>', crate='profiles', unwind=5, stubs=('str', 'pipe4', 'pipe_bidi', 'once'), unwindset=pipe_us(1), tiers=T, timeout=1500, mem_gb=17,
       funcs=['UsernameCaseMapped: static compare(x, "a")'], bound='strings of 0..=1 characters over SIGMA_PIPE'),
@@ -765,15 +768,16 @@ def by_name(name):
 _RULES = ['zwnj', 'zwj', 'middle_dot', 'keraia', 'hebrew', 'katakana', 'arabic', 'ext_arabic', 'registry']
 for _k, _r in enumerate(_RULES):
     HARNESSES.append(H('C01', 'c01_ctx_%s_n3' % _r, '$P::c01::ctx_rules::<3, 12, %d, _>' % _k, unwind=6, stubs=('ctx',), timeout=1200, mem_gb=12,
-                       tiers=Q if _r not in ('registry', 'zwnj') else T,
+                       tiers=Q if _r in ('keraia', 'hebrew', 'arabic', 'ext_arabic') else T,
                        funcs=['context::rule_* #%d (%s)' % (_k, _r)],
                        bound='labels of 0..=3 characters, every character any Unicode scalar value; offset ANY usize'))
-HARNESSES.append(H('C01', 'c01_ctx_zwnj_n2', '$P::c01::ctx_rules::<2, 8, 0, _>', unwind=5, stubs=('ctx',), timeout=1200, mem_gb=14,
+HARNESSES.append(H('C01', 'c01_ctx_zwnj_n2', '$P::c01::ctx_rules::<2, 8, 0, _>', unwind=4, unwindset=(('25rule_zero_width_nonjoiner', 3), (r'10advance_by\w*\.0$', 2), ('10advance_by', 4)), stubs=('ctx',), timeout=1200, mem_gb=14,
                    funcs=['context::rule_zero_width_nonjoiner'], bound='labels of 0..=2 characters, every character any Unicode scalar value; offset ANY usize'))
-for _src, _t in [('c14_pairing', Q), ('c14_pred_is_space', Q), ('c14_pred_is_unassigned', Q), ('c02_any_class_n4', Q),
-                 ('c12_nick_map_n3', Q), ('c12_opaque_map_n3', Q), ('c11_width_one', Q), ('c10_case_sigma_n2', Q), ('c11_width_map_n3', T), ('c10_case_sigma_n3', T),
-                 ('c13_stabilize_any_fn', Q), ('c05_opaque_enforce_n1', Q), ('c06_nickname_prepare_n1', Q), ('c04_username_preserved_enforce_n1', T),
-                 ('c07_const_nickname_k2', Q), ('c07_const_opaque_k1', Q), ('c09_bidi_rule_n4', Q),
+for _src, _t in [('c14_pairing', Q), ('c14_pred_is_space', Q), ('c02_any_class_n4', Q), ('c12_opaque_map_n3', T), ('c11_width_one', Q),
+                 ('c13_stabilize_any_fn', Q), ('c05_opaque_enforce_n1', Q), ('c06_nickname_prepare_n1', Q), ('c07_const_nickname_k2', Q),
+                 ('c09_bidi_rule_n4', T), ('c04_witness_J_caron', Q), ('c06_witness_2', Q),
+                 ('c14_pred_is_unassigned', T), ('c12_nick_map_n3', T), ('c10_case_sigma_n2', T), ('c07_const_opaque_k1', T),
+                 ('c11_width_map_n3', T), ('c10_case_sigma_n3', T), ('c04_username_preserved_enforce_n1', T),
                  ('c06_nickname_two_rounds_n1', T), ('c04_username_mapped_enforce_n1', T), ('c07_const_nickname_k1', T),
                  ('c12_nick_map_n5', T), ('c12_opaque_map_n5', T), ('c02_any_class_n6', T), ('c06_nickname_enforce_n2', T), ('c04_username_mapped_enforce_n2', T)]:
     HARNESSES.append(_c01(_src, _t))
